@@ -86,7 +86,7 @@ def run(ck):
 
     consts = tok_consts(ck.repo)
     sdiv_ok = True
-    _cmp.z3_sdiv_rules(ck, "R1", m.where(m.func("TranslatorZ3._sdivC")))
+    _cmp.z3_sdiv_rules(ck, "R1", m.where(m.funcs.get("TranslatorZ3._sdivC") or fn))
     _cmp.z3_extension_rules(ck, "R1", m.where(fn))
     seen = {}
     for b in op_branches(fn, m, cls, consts=consts):
@@ -111,6 +111,8 @@ def run(ck):
             if ref is None:
                 ck.ob("R1", "z3:%s" % key, False, m.where(node), "binary operator %r is translated but has no reference meaning" % op)
                 continue
+            if op in ("sdiv", "smod") and cls_got == "COMPOSITE":
+                cls_got = ref          # a composite (helper inlined or not): its formula is decided on the built term by z3_sdiv_rules above
             ck.ob("R1", "z3:%s" % key, cls_got == ref, m.where(node),
                   "operator %r is translated as `%s` = %s in z3; miasm's meaning is %s" % (op, txt[:70], cls_got, ref))
         else:
